@@ -31,7 +31,7 @@ static const char *QTN[7] = { "NULL", "PRIVATE", "TXT", "SRV", "MX", "CNAME", "A
 enum { K_LETTERS, K_QUERIES, K_ANSWERS, K_DUPS, K_CACHE_EXPECTED, K_CACHE_SAME, K_POS_CHECKS, K_MAXPEND, K_TUNW, K_DATA_ANS, K_HELD2, K_SAN = 20 };
 
 /* ---------------------------------------------------------------- alphabet */
-enum { L_PING, L_DATA_FIRST, L_DATA_LAST, L_DUP, L_TUN, L_TIME, L_RAWLOGIN, L_LAZY, L_SETFRAG, L_RELOGIN, L_RAWPING, L_RAWDATA };
+enum { L_PING, L_DATA_FIRST, L_DATA_LAST, L_DUP, L_TUN, L_TIME, L_RAWLOGIN, L_LAZY, L_SETFRAG, L_RELOGIN, L_RAWPING, L_RAWDATA, L_HSDUP };
 enum { V_SAME, V_NEWID, V_NEWSRC, V_UPPER, V_OTHERTYPE };
 typedef struct letter { int kind, a, b; char name[40]; } letter;
 static letter LT[128]; static int nlt, nlt_all;      /* letters [nlt, nlt_all) are used by warm-ups only */
@@ -61,6 +61,9 @@ static void mk_alphabet(void)
 		/* the session goes silent for 61 s and a new session (version, login, lazy switch; no size request yet) takes
 		 * over its slot: the limit in force for the new session is the default again */
 		addl(L_RELOGIN, 0, 0, "idle61s+newsession");
+		/* a late duplicate of the session's own (valid) login query: the login is acknowledged again, the settings the session
+		 * has negotiated since stay as they are (seeded C15-i: the default size re-applied at every accepted login) */
+		addl(L_HSDUP, 0, 0, "redeliver(login)"); addl(L_HSDUP, 1, 0, "redeliver(login,newid)");
 		/* older queries re-delivered with a fresh id: enabled in the warmed-up start states (answer cache wrapped) */
 		for (int k = 1; k <= 4; k++) addl(L_DUP, k, V_NEWID, "redeliver(%d back,newid)", k);
 		nlt_all = nlt;
@@ -120,6 +123,7 @@ typedef struct model {
 	int npkt;
 	int lazy, relogins, warm;
 	int uid;                        /* the session's slot / userid (0, or 10 in the 'eleventh client' start states) */
+	uint8_t login_pkt[400]; int login_len;   /* the session's login query as sent in the handshake (a relay may repeat it later) */
 } model;
 static model M;
 static struct sockaddr_storage SRC_A, SRC_A2; static socklen_t SRCLEN;
@@ -394,6 +398,12 @@ static int apply(int li)
 		do_settle = 0;
 		break;
 	}
+	case L_HSDUP:
+		if (M.login_len <= 0) return 1;
+		plen = M.login_len; memcpy(pkt, M.login_pkt, plen);
+		if (L->a) { ++M.idseq; pkt[0] = M.idseq >> 8; pkt[1] = M.idseq & 0xff; }
+		send_q(&SRC_A, pkt, plen);
+		break;
 	case L_LAZY:
 		plen = tm_short(pkt, ++M.idseq, M.qt, 'o', tm_5to8(M.uid), L->a ? 'l' : 'i', M.cmc++, DOM);
 		send_q(&SRC_A, pkt, plen);
@@ -496,6 +506,7 @@ static void handshake(void)
 	expect_one("version");
 	uint8_t h[16]; ref_login(pw32, M.seed, h);
 	adv_clear(); n = tm_login(pkt, ++M.idseq, M.qt, M.uid, h, 16, M.cmc++, DOM); send_q(&SRC_A, pkt, n); expect_one("login");
+	if (n <= (int)sizeof M.login_pkt) { memcpy(M.login_pkt, pkt, n); M.login_len = n; }
 	if (!s_w_users()[M.uid].authenticated) vw_fatal("start state: login not accepted");
 	if (M.lazy) { adv_clear(); n = tm_short(pkt, ++M.idseq, M.qt, 'o', tm_5to8(M.uid), 'l', M.cmc++, DOM); send_q(&SRC_A, pkt, n); expect_one("lazy switch"); }
 }
